@@ -15,6 +15,22 @@ pub struct Built {
 }
 
 pub fn lr_grammar(rng: &mut Rng, conflicts: bool) -> G {
+    if conflicts && rng.chance(1, 4) {
+        // two alternatives deriving the SAME word through different non-terminals (reduce-reduce conflict), in both
+        // orders of definition vs. alphabetical order of the non-terminals, optionally under a wrapper
+        let len = rng.range(1, 3);
+        let w: Vec<Sy> = (0..len).map(|_| Sy::T(5 + rng.below(2) as u16)).collect();
+        let (first, second) = if rng.chance(1, 2) { (2usize, 1usize) } else { (1usize, 2usize) };
+        let mut prods = vec![(0, vec![Sy::N(first)]), (0, vec![Sy::N(second)])];
+        if rng.chance(1, 2) { prods.push((first, w.clone())); prods.push((second, w.clone())); } else { prods.push((second, w.clone())); prods.push((first, w.clone())); }
+        if rng.chance(1, 2) {
+            // S: Alt; Alt: ..
+            let mut p2: Vec<(usize, Vec<Sy>)> = vec![(0, vec![Sy::N(3)])];
+            for (l, r) in prods { p2.push((if l == 0 { 3 } else { l }, r)); }
+            return G { names: (0..4).map(nt_name).collect(), start: 0, prods: p2 };
+        }
+        return G { names: (0..3).map(nt_name).collect(), start: 0, prods };
+    }
     if conflicts && rng.chance(1, 2) {
         // ambiguity-rich: few non-terminals, many alternatives, nullable symbols
         let d = Dials { max_nts: 2, max_terms: 2, max_alts: 4, max_rhs: 3, eps_pct: 25, nt_pct: 60 };
